@@ -276,3 +276,34 @@ Proof.
   destruct H1 as (p & -> & Hp). destruct H2 as (q & -> & Hq). exists p, q. repeat split; auto.
   assert (E : p - 0 == p) by ring. rewrite <- E. exact Hp.
 Qed.
+
+(* ---------- Ticks(o) observed against a model outcome ---------- *)
+(* status 0 and every tick a finite float within tolerance of the expected one, in order (minor
+   ticks only where they were recorded); no ticks at all; or a panic *)
+Definition ticks_obs (tolv : Q -> Q) (t : ticks_res) (st : Z) (major : list xreal) (minor : option (list xreal)) : Prop :=
+  match t with
+  | TR_ticks ma mi => st = 0%Z /\ obs_close tolv ma major /\ (forall m, minor = Some m -> obs_close tolv mi m)
+  | TR_none => st = 0%Z /\ major = [] /\ (forall m, minor = Some m -> m = [])
+  | TR_panic => st = 2%Z
+  end.
+Lemma ticks_exact_sound t st tolv major minor : ticks_exact t st tolv major minor = true -> ticks_obs tolv t st major minor.
+Proof.
+  unfold ticks_exact, ticks_obs. destruct t as [| |ma mi]; intro H.
+  - now apply Z.eqb_eq in H.
+  - apply andb_prop in H. destruct H as [H1 H2]. apply Z.eqb_eq in H1. split; [exact H1|].
+    destruct major; [|discriminate]. split; [reflexivity|]. intros m ->. destruct m; [reflexivity|discriminate].
+  - apply andb_prop in H. destruct H as [H H3]. apply andb_prop in H. destruct H as [H1 H2]. apply Z.eqb_eq in H1.
+    split; [exact H1|]. split; [now apply close_list_sound|]. intros m ->. now apply close_list_sound.
+Qed.
+
+(* an ascending list has no repetitions; two ascending lists with the same elements have the same length *)
+Lemma sorted_nodup (L : list Q) : StronglySorted Qlt L -> NoDup L.
+Proof.
+  induction 1 as [|a L S IH F]; constructor; [|exact IH].
+  intro Hin. rewrite Forall_forall in F. apply F in Hin. apply Qlt_irrefl in Hin. exact Hin.
+Qed.
+Lemma sorted_same_length (L1 L2 : list Q) : StronglySorted Qlt L1 -> StronglySorted Qlt L2 ->
+  (forall v, In v L1 <-> In v L2) -> length L1 = length L2.
+Proof.
+  intros S1 S2 E. apply Nat.le_antisymm; apply NoDup_incl_length; try (now apply sorted_nodup); intros v Hv; now apply E.
+Qed.
